@@ -108,7 +108,7 @@ class C06(Prop):
     level = 'fault_enumeration'
     rule = ('cases (each parsed with tolerance 0 and 1): (i) every string over '
             'the 25-character category alphabet up to the length bound; (ii) '
-            'every string over the 68-token alphabet up to the bound; (iii) '
+            'every string over the 70-token alphabet up to the bound; (iii) '
             'seeded random token strings (incl. NUL/DEL/CR and bare signature '
             'commands) up to 14 tokens; (iv) every prefix, single-character '
             'deletion, sampled insertion and adjacent transposition of W1 '
@@ -128,9 +128,9 @@ class C06(Prop):
     budget_s = {'quick': 300, 'thorough': 5400}
     exhaustive = {
         'quick': 'all strings of length <= 3 over the 25-character alphabet and '
-                 'of length <= 2 over the 68-token alphabet, x tolerance {0,1}',
+                 'of length <= 2 over the 70-token alphabet, x tolerance {0,1}',
         'thorough': 'all strings of length <= 5 over the 25-character alphabet '
-                    'and of length <= 3 over the 68-token alphabet, x tolerance {0,1}',
+                    'and of length <= 3 over the 70-token alphabet, x tolerance {0,1}',
     }
 
     def cases(self, tier, seed, want):
